@@ -4,6 +4,8 @@ import (
 	"bytes"
 	"encoding/binary"
 	"encoding/gob"
+	"errors"
+	"fmt"
 	"sort"
 	"sync"
 
@@ -31,7 +33,14 @@ func OpenIndexFromBoltDatabase(db *bbolt.DB, opts ...IndexOption) (*Index, error
 
 	err := db.View(func(tx *bbolt.Tx) error {
 		bucket := tx.Bucket([]byte("data"))
+		if bucket == nil {
+			return errors.New("not an index: data bucket not found")
+		}
+
 		schemaItem := bucket.Get(keySchema)
+		if schemaItem == nil {
+			return errors.New("not an index: schema not found")
+		}
 
 		var sch schema
 
@@ -42,6 +51,9 @@ func OpenIndexFromBoltDatabase(db *bbolt.DB, opts ...IndexOption) (*Index, error
 		idx.schema = &sch
 
 		rowsItem := bucket.Get(keyNextRowID)
+		if len(rowsItem) != 4 {
+			return errors.New("not an index: row counter missing or malformed")
+		}
 
 		idx.nextRowID = binary.BigEndian.Uint32(rowsItem)
 		return nil
@@ -57,6 +69,7 @@ func OpenIndexFromBoltDatabase(db *bbolt.DB, opts ...IndexOption) (*Index, error
 
 	for _, opt := range opts {
 		if err := opt(idx); err != nil {
+			db.Close()
 			return nil, err
 		}
 	}
@@ -165,6 +178,9 @@ func (g *onDemandColGetter) GetCol(key uint64) (*roaring.Bitmap, error) {
 		var keyBuf [8]byte
 
 		bucket := tx.Bucket([]byte("data"))
+		if bucket == nil {
+			return errors.New("not an index: data bucket not found")
+		}
 
 		binary.BigEndian.PutUint64(keyBuf[:], key)
 
@@ -225,9 +241,18 @@ func newPreloadedColGetter(db *bbolt.DB) (colGetter, error) {
 	}
 
 	err := db.View(func(tx *bbolt.Tx) error {
-		c := tx.Bucket([]byte("data")).Cursor()
+		bucket := tx.Bucket([]byte("data"))
+		if bucket == nil {
+			return errors.New("not an index: data bucket not found")
+		}
+
+		c := bucket.Cursor()
 
 		for k, v := c.Seek(keyPrefixValue); k != nil && bytes.HasPrefix(k, keyPrefixValue); k, v = c.Next() {
+			if len(k) != 9 {
+				return fmt.Errorf("not an index: invalid value key of length %d", len(k))
+			}
+
 			key := binary.BigEndian.Uint64(k[1:])
 
 			bm := roaring.New()
